@@ -65,6 +65,11 @@ func ProfileFor(name string) Profile {
 		p.WInvalid, p.WCapChange, p.WModify, p.WForeign, p.WAdversary, p.WCancel, p.WParams = 0.01, 0.02, 0.03, 0.0, 0.0, 0.0, 0.0
 		p.MaxRounds, p.Vesting = [2]int{0, 1}, [2]int{0, 2}
 		p.Faults = map[string]float64{FCrashPre: 0.02}
+	case "sprawl": // more than a hundred auctions: whatever walks "all auctions" must reach the last one
+		p.MaxAuctions, p.Blocks, p.TxPerBlock = 112, [2]int{7, 10}, 30
+		p.WInvalid, p.WCapChange, p.WModify, p.WForeign, p.WAdversary, p.WCancel, p.WParams = 0.01, 0.02, 0.03, 0.0, 0.0, 0.02, 0.0
+		p.MaxRounds, p.Vesting = [2]int{0, 1}, [2]int{0, 2}
+		p.Faults = map[string]float64{FCrashPre: 0.02}
 	case "fixed": // C06
 		p.FixedOnly, p.MaxAuctions, p.TxPerBlock = true, 3, 5
 		p.WInvalid = 0.3
@@ -390,7 +395,7 @@ func (g *gen) genBlock(bidx int, draining bool) {
 	if g.p.BookBuilder && !draining {
 		ntx = g.in(1, g.p.TxPerBlock+2)
 	}
-	if g.p.Name == "crowd" && !draining {
+	if (g.p.Name == "crowd" || g.p.Name == "sprawl") && !draining {
 		ntx = g.p.TxPerBlock
 	}
 	if draining {
@@ -613,7 +618,7 @@ func (g *gen) genTx(pm *Model) *Tx {
 	x := g.r.Float64()
 	nA := len(pm.Auctions)
 	switch {
-	case nA < g.p.MaxAuctions && (nA == 0 || x < 0.12 || (g.p.Concurrent && nA < 3)):
+	case nA < g.p.MaxAuctions && (nA == 0 || x < 0.12 || (g.p.Concurrent && nA < 3) || (g.p.Name == "sprawl" && x < 0.93)):
 		return g.txCreate(pm)
 	case x < 0.12+g.p.WAdversary:
 		return g.txAdversary(pm)
